@@ -95,6 +95,14 @@ def cinfer(recipe, res, twice=False):
     return f"({ctor} {pyobs.nexpr(recipe)} (Ok ({pyobs.node_term(res[1])}, {F.cbool(res[2])})))"
 
 
+def cinfer_frame(recipe, res, twice=False, raised_any=False):
+    """frame-only comparison (arbitrary graphs: type values depend on the scheduling order)"""
+    tw = F.cbool(twice)
+    if res[0] == "err":
+        return f"(CInferFrame {tw} {pyobs.nexpr(recipe)} (Err OtherError))"
+    return f"(CInferFrame {tw} {pyobs.nexpr(recipe)} (Ok ({pyobs.node_term(res[1])}, {F.cbool(raised_any)})))"
+
+
 def tval(t, key):
     """value of a type dictionary as list of ints, 'none', or 'other'"""
     if not isinstance(t, dict) or key not in t:
